@@ -188,6 +188,10 @@ class Client:
                 try:
                     self.request("shutdown", None, timeout=3)
                     self.notify("exit", None)
+                    try:
+                        self.proc.wait(timeout=1.5)      # let it exit by itself (flushes a coverage profile, if any)
+                    except Exception:
+                        pass
                 except Exception:
                     pass
         finally:
